@@ -119,7 +119,7 @@ def claimed():
     return [c["property_id"] for c in man["checks"]]
 
 
-def cmd_check(i, props):
+def cmd_check(i, props, cache=None):
     patch = os.path.join(VERIF, "seeded", i, "patch.diff")
     d = tempfile.mkdtemp(prefix="verif-seedrun-")
     res = {}
@@ -129,7 +129,7 @@ def cmd_check(i, props):
         if r.returncode != 0:
             sys.exit("patch does not apply to /repo: " + r.stdout + r.stderr)
         for p in props or claimed():
-            rc, viol, out = mut.run_check(p, d)
+            rc, viol, out = mut.run_check(p, d, cache=cache)
             res[p] = {"exit": rc, "violations": viol}
             print("%s vs %s: exit=%d %s" % (i, p, rc, viol[:3]))
     finally:
@@ -154,13 +154,22 @@ if __name__ == "__main__":
     elif a[0] == "check":
         cmd_check(a[1], a[2:])
     elif a[0] == "checkall":
-        bad = 0
-        for i in sorted(os.listdir(os.path.join(VERIF, "seeded"))):
-            m = load_meta(i)
-            prop = m.get("property")
-            if prop not in claimed():
-                continue
-            r = cmd_check(i, [prop])
-            if r[prop]["exit"] != 1:
-                bad += 1
+        # tools/seed.py checkall [-j N]: N seeds at a time, each worker with its own extraction cache slot
+        from concurrent.futures import ThreadPoolExecutor
+        jobs = int(a[a.index("-j") + 1]) if "-j" in a else 1
+        cl = claimed()
+        todo = [(i, load_meta(i).get("property")) for i in sorted(os.listdir(os.path.join(VERIF, "seeded")))]
+        todo = [(i, p) for i, p in todo if p in cl]
+        lists = [todo[k::jobs] for k in range(jobs)]
+
+        def work(args):
+            k, lst = args
+            n = 0
+            for i, prop in lst:
+                r = cmd_check(i, [prop], cache=os.path.join(VERIF, ".cache", "mutslots", "s%d" % k) if jobs > 1 else None)
+                n += 0 if r[prop]["exit"] == 1 else 1
+            return n
+        with ThreadPoolExecutor(max_workers=jobs) as ex:
+            bad = sum(ex.map(work, enumerate(lists)))
+        print("%d seeds, %d not reported" % (len(todo), bad))
         sys.exit(1 if bad else 0)
